@@ -341,4 +341,12 @@ theorem run_configuration_wf (ops : List Build.Op) (hv : Build.Valid {} ops) (or
     (until_ maxLoop : Nat) (lazy_ useCache strict : Bool) : WFCfg (Build.runCfg out until_ maxLoop lazy_ useCache strict) :=
   Build.run_config_wf hv hU h until_ maxLoop lazy_ useCache strict
 
+/-- **scenarios without groups need no hypothesis at all**: every trigger path then has cutoff 1, so `UniformT` holds outright
+(`Build.flat_uniformT`) - for every sequence of valid calls whose `start` calls all name the main group, the configuration handed to
+the scheduler satisfies `WFCfg` -/
+theorem run_configuration_wf_flat (ops : List Build.Op) (hv : Build.Valid {} ops) (hf : Build.flatOps ops = true) (orc : List Nat)
+    {out : List SimCfg} (h : cacheTriggeringAncestors (Build.build ops).sims orc = .ok out)
+    (until_ maxLoop : Nat) (lazy_ useCache strict : Bool) : WFCfg (Build.runCfg out until_ maxLoop lazy_ useCache strict) :=
+  Build.run_config_wf_flat hv hf h until_ maxLoop lazy_ useCache strict
+
 end Mosaik.C07
